@@ -55,6 +55,16 @@ type cfgChanOp struct {
 	Note          string `json:"note"`
 }
 
+// cfgPub is a reviewed write-after-publish row: in Func, a value stored into the
+// guarded Field under its lock is written through the local variable Var after
+// that hold is over.
+type cfgPub struct {
+	Func  string `json:"func"`
+	Field string `json:"field"`
+	Var   string `json:"var"`
+	Note  string `json:"note"`
+}
+
 // cfgCTA is a reviewed check-then-act row: in Func, a value obtained under
 // Lock (through Source: a callee that takes the lock itself, or a field read
 // in an earlier hold) is tested, and a later, separate hold of the same lock
@@ -90,6 +100,8 @@ type cfgKnownAcq struct {
 }
 
 type config struct {
+	// WriteAfterPublish is the reviewed baseline of write-after-publish rows.
+	WriteAfterPublish []cfgPub `json:"write_after_publish"`
 	// CheckThenAct is the reviewed baseline of check-then-act rows.
 	CheckThenAct []cfgCTA `json:"check_then_act"`
 	// ChannelOps is the reviewed table of blocking channel operations under locks.
@@ -210,6 +222,12 @@ type ctaPair struct {
 	actPos    string
 }
 
+// pubRow is a write through a local variable to an object after the object was
+// stored into a guarded field and the guarding hold ended.
+type pubRow struct {
+	fn, field, varName, pubPos, writePos string
+}
+
 type acqSite struct {
 	fn     string
 	class  int
@@ -295,6 +313,7 @@ type analysis struct {
 	dynAll       map[string]int
 	acqSites     []*acqSite
 	ctaPairs     []ctaPair
+	pubRows      []pubRow
 	chanOps      []*chanOpSite
 	seq          int
 	exemptAcqs   map[string]bool
@@ -475,6 +494,7 @@ func (a *analysis) reset() {
 	a.dynAll = map[string]int{}
 	a.acqSites = nil
 	a.ctaPairs = nil
+	a.pubRows = nil
 	a.chanOps = nil
 	a.exemptAcqs = map[string]bool{}
 }
